@@ -276,7 +276,7 @@ fn open_store(kind: Kind, dir: &Path) -> Result<Store, String> {
                 // capacity 2: with three objects the tracker evicts; eviction from the
                 // recency tracker must never affect what a read returns
                 let m = LruManager::new(2, dir.to_path_buf());
-                b = b.lru(Arc::new(parking_lot::RwLock::new(m)));
+                b = b.lru(Arc::new(cascette_client_storage::verif_hooks::sync::RwLock::new(m)));
             }
             let c = b.build().map_err(|e| format!("build: {e}"))?;
             block_on(c.open()).map_err(|e| format!("open: {e}"))?;
